@@ -179,6 +179,44 @@ pub fn c01_gen2<N: Nd>(n: &mut N, kind: u8, ck: u8) {
     vcover!(legal && calls >= 2, "both origins produce a batch");
 }
 
+/// (2''): the same with THREE origins of the generator's kind in the mask: the loop's third
+/// iteration behaves like the first two (every move of the chosen origin exactly once, nothing
+/// else, no batch about a square outside the mask; at most two batches per origin).
+pub fn c01_gen3<N: Nd>(n: &mut N, kind: u8, ck: u8) {
+    let (p, half, full) = sym_accepted(n);
+    let (f, t, pr) = sym_move(n);
+    let g = n.u8();
+    let h = n.u8();
+    n.assume(g < 64 && h < 64 && g != f && h != f && g != h);
+    kind_cube(n, &p, f, kind);
+    kind_cube(n, &p, g, kind);
+    kind_cube(n, &p, h, kind);
+    ck_cube(n, &p, ck);
+    describe(n, &p, half, full, f, t, pr);
+    if n.native() {
+        println!("witness: second origin {}, third origin {}", sq(g), sq(h));
+    }
+    let b = board_of(&p, half, full, n.u64());
+    let mask = bit(f) | bit(g) | bit(h);
+    let mut calls = 0u32;
+    let mut count = 0u32;
+    let mut shape_ok = true;
+    let r = b.verif_add_legals(kind, ck == 1 || ck == 2, BitBoard(mask), &mut |pm: PieceMoves| {
+        calls += 1;
+        shape_ok &= !pm.is_empty() && (mask >> (pm.from as u8)) & 1 != 0 && pm.piece as u8 == kind;
+        if in_batch(&pm, f, t, pr) {
+            count += 1;
+        }
+        false
+    });
+    let legal = refm::legal(&p, f, t, pr);
+    assert!(!r);
+    assert!(shape_ok);
+    assert!(count == legal as u32);
+    assert!(calls <= 6);
+    vcover!(legal && calls >= 3, "all three origins produce a batch");
+}
+
 /// (2) for the abort contract: the listener answers true at call index `stop`.
 pub fn c16_gen_abort<N: Nd>(n: &mut N, kind: u8, ck: u8) {
     let (p, half, full) = sym_accepted(n);
@@ -670,6 +708,17 @@ macro_rules! bproofs {
 
 bproofs! {
     c13_two_files => |n: &mut _| two_files_body(n);
+    c01_gen3_pawn_c1 => |n: &mut _| c01_gen3(n, 0, 1);
+    c01_gen3_pawn_c3 => |n: &mut _| c01_gen3(n, 0, 3);
+    c01_gen3_pawn_c4 => |n: &mut _| c01_gen3(n, 0, 4);
+    c01_gen3_knight_c0 => |n: &mut _| c01_gen3(n, 1, 0);
+    c01_gen3_knight_c1 => |n: &mut _| c01_gen3(n, 1, 1);
+    c01_gen3_bishop_c0 => |n: &mut _| c01_gen3(n, 2, 0);
+    c01_gen3_bishop_c1 => |n: &mut _| c01_gen3(n, 2, 1);
+    c01_gen3_rook_c0 => |n: &mut _| c01_gen3(n, 3, 0);
+    c01_gen3_rook_c1 => |n: &mut _| c01_gen3(n, 3, 1);
+    c01_gen3_queen_c0 => |n: &mut _| c01_gen3(n, 4, 0);
+    c01_gen3_queen_c1 => |n: &mut _| c01_gen3(n, 4, 1);
     c01_gen2_pawn_c1 => |n: &mut _| c01_gen2(n, 0, 1);
     c01_gen2_pawn_c3 => |n: &mut _| c01_gen2(n, 0, 3);
     c01_gen2_pawn_c4 => |n: &mut _| c01_gen2(n, 0, 4);
